@@ -17,7 +17,7 @@ func extraSuite(name string, g *gen, e *emitter, n int) bool {
 	case "pairs10":
 		for i := 0; i < n; {
 			c := g.config(100)
-			if _, err := cors.NewMiddleware(c); err != nil {
+			if !accepts(c) {
 				continue
 			}
 			for j := 0; j < 6 && i < n; j++ {
@@ -28,7 +28,7 @@ func extraSuite(name string, g *gen, e *emitter, n int) bool {
 	case "pairs09":
 		for i := 0; i < n; {
 			c := g.config(100)
-			if _, err := cors.NewMiddleware(c); err != nil {
+			if !accepts(c) {
 				continue
 			}
 			for j := 0; j < 6 && i < n; j++ {
@@ -39,7 +39,7 @@ func extraSuite(name string, g *gen, e *emitter, n int) bool {
 	case "twins":
 		for i := 0; i < n; {
 			c := g.config(100)
-			if _, err := cors.NewMiddleware(c); err != nil {
+			if !accepts(c) {
 				continue
 			}
 			t := g.twin(c)
@@ -51,7 +51,7 @@ func extraSuite(name string, g *gen, e *emitter, n int) bool {
 	case "roundtrip":
 		for i := 0; i < n; {
 			c := g.config(100)
-			if _, err := cors.NewMiddleware(c); err != nil {
+			if !accepts(c) {
 				continue
 			}
 			var rqs []request
